@@ -144,8 +144,18 @@ def deep_merge_multi_update(dct, merge_dct):
                     '_multi_update': [
                         dct[k], merge_dct[k]]}
         else:
-            dct[k] = merge_dct[k]
+            # Copy the dictionaries (not their leaves) so that merging
+            # further values into dct never writes into merge_dct.
+            dct[k] = _copy_nested_dicts(merge_dct[k])
     return dct
+
+
+def _copy_nested_dicts(value):
+    if isinstance(value, dict):
+        return {
+            key: _copy_nested_dicts(subvalue)
+            for key, subvalue in value.items()}
+    return value
 
 
 def remove_multi_update(d):
